@@ -118,6 +118,12 @@ class Checker:
         if status >= 500 and not (status == 501 and declared_501(R, rules())):
             self.fails.append(C.Failing(f"http:5xx:{shape}:{status}", f"{R['m']} {url} answered {status}", case, out))
             return out
+        if R.get("expect4xx") and status < 400:
+            fmt = "xml" if "xml" in c10.CTYPES[R["ct"]][1] else "json"
+            self.fails.append(C.Failing(f"http:malformed-accepted:{shape}:{fmt}{':core' if R.get('level') else ''}",
+                                        f"{R['m']} {url} with the malformed {fmt} body {base64.b64decode(R['bytes'])[:160]!r} answered {status}",
+                                        dict(case, kind="malformed-accepted"), status, "4xx"))
+            return out
         if status >= 400:
             after = srv.snapshot_full()
             if after != before:
@@ -1077,7 +1083,8 @@ def oracle(ctx: C.Ctx, cov: C.Coverage) -> List[C.Failing]:
         for f in chk.fails:
             if f.sig not in sigs:
                 sigs.add(f.sig)
-                f.case["reqs"] = C.ddmin(f.case["reqs"], lambda rs, f=f, fb=chk.mode: (lambda g: g is not None and g.sig == f.sig)(check_history(rs, fb)), 60)
+                if not f.case.get("minimal"):
+                    f.case["reqs"] = C.ddmin(f.case["reqs"], lambda rs, f=f, fb=chk.mode: (lambda g: g is not None and g.sig == f.sig)(check_history(rs, fb)), 60)
                 out.append(f)
     return out
 
@@ -1091,7 +1098,8 @@ def malformed_sweep(chk: "Checker") -> None:
     sh = c10.mk_shell(shid, None, 1, [i])
     cd = c10.gen_obj(random.Random(5), "cd", cdid)
     P = lambda segs, o, p: c10.mk_req("POST", segs, 1, 0, {"p": p, "o" if p == "obj" else "e": o}, c10.serialise(o, "json"))
-    for R in (P(["submodels"], sm, "obj"), P(["shells"], sh, "obj"), P(["concept-descriptions"], cd, "obj")):
+    setup = [P(["submodels"], sm, "obj"), P(["shells"], sh, "obj"), P(["concept-descriptions"], cd, "obj")]
+    for R in setup:
         chk.step(R)
     b = c10.b64
     q0 = b(c10.QTYPES[0])
@@ -1108,13 +1116,13 @@ def malformed_sweep(chk: "Checker") -> None:
             for r, (m, segs) in enumerate(routes):
                 for level in (None, "core"):
                     R = c10.mk_req(m, segs, (n + r) % 4, cts[(n + r) % len(cts)], "raw", doc, level=level)
+                    R["expect4xx"] = True
                     nf = len(chk.fails)
-                    out = chk.step(R)
-                    if out[0] == "resp" and out[1] < 400 and len(chk.fails) == nf:
-                        shape = f"{m}:{route_shape(R)}"
-                        chk.fails.append(C.Failing(f"http:malformed-accepted:{shape}:{fmt}{':core' if level else ''}",
-                                                   f"{m} {c10.url_of(R)[:200]} with the malformed {fmt} body {doc[:160]!r} answered {out[1]}",
-                                                   {"mode": chk.mode, "reqs": list(chk.reqs), "kind": "malformed-accepted"}, out[1], "4xx"))
+                    chk.step(R)
+                    for f in chk.fails[nf:]:
+                        # the three requests that fill the store + this one reproduce it (what the sweep accepted before is not needed)
+                        f.case["reqs"] = setup + [R]
+                        f.case["minimal"] = True
 
 
 def special_requests(rng: random.Random) -> List[Dict[str, Any]]:
